@@ -799,6 +799,8 @@ class Stmts(Calls):
             st.assume(z3.ForAll([i], z3.Implies(inrange, z3.Not(self.b(rcond)))))
         if not normal:
             return
+        if not st.spec and any(not _is_true(c) for _s, _v, c in normal):
+            st.assume(z3.ForAll([i], z3.Implies(inrange, self.b(self._or([c for _s, _v, c in normal])))))
         # merged element value and filter condition as functions of i
         ety = None
         for s2, vs, c in normal:
@@ -892,7 +894,7 @@ class Stmts(Calls):
     def _sum_symbolic(self, comp, st, n, f):
         """sum(elt for x in seq): prefix-sum ghost function, canonical per (element expression, captured terms)"""
         target, iter_e, ifs, elt = self.comp_parts(comp)
-        i = z3.Int('sum!i')
+        i = self.fresh_term('si', z3.IntSort())
         outs = self.eval_under_index(target, f, V(i, INT), list(ifs) + [elt], st)
         normal = [(s2, vs, c) for s2, vs, c in outs if not isinstance(vs, Raised)]
         raising = [(s2, vs, c) for s2, vs, c in outs if isinstance(vs, Raised)]
@@ -909,6 +911,9 @@ class Stmts(Calls):
             st.assume(z3.ForAll([i], z3.Implies(inrange, z3.Not(self.b(rcond)))))
         if not normal:
             return
+        if not st.spec and any(not _is_true(c) for _s, _v, c in normal):
+            # what holds for every element on the non-raising outcomes (callee post-conditions, branch conditions)
+            st.assume(z3.ForAll([i], z3.Implies(inrange, self.b(self._or([c for _s, _v, c in normal])))))
         val_t = None
         for s2, vs, c in reversed(normal):
             vt = self.term(vs[-1], INT, s2)
@@ -916,14 +921,71 @@ class Stmts(Calls):
                 ct = self._and([self.b(self.truth(x, s2)) for x in vs[:-1]])
                 vt = z3.If(self.b(ct), vt, 0)
             val_t = vt if val_t is None else z3.If(self.b(c), vt, val_t)
+        yield st, V(self.lifted_sum(val_t, i, nt), INT)
+
+    def lifted_sum(self, val_t, idx, n):
+        """sum_{k<n} val_t[idx:=k] as PS_shape(params..., n): the summand is lambda-lifted over its maximal idx-free
+        subterms, so sums of the same shape in different functions (or under different bound variables) are the same
+        ghost function applied to their own parameters.  Defining axioms (prefix recursion) are global."""
         val_t = z3.simplify(val_t)
-        key = val_t.sexpr()
+        params = []
+
+        def contains_idx(x, memo={}):
+            k = x.get_id()
+            if k in memo and memo[k][1].eq(x):
+                return memo[k][0]
+            if x.eq(idx):
+                r = True
+            elif z3.is_app(x):
+                r = any(contains_idx(c) for c in x.children())
+            elif z3.is_quantifier(x):
+                r = True        # be conservative: do not lift terms with binders
+            else:
+                r = False
+            memo[k] = (r, x)
+            return r
+
+        def collect(x):
+            if not contains_idx(x):
+                if z3.is_int_value(x) or z3.is_true(x) or z3.is_false(x) or z3.is_bv_value(x):
+                    return
+                if not any(p.eq(x) for p, _ph in params):
+                    params.append((x, z3.Const('P!%d' % len(params), x.sort())))
+                return
+            if z3.is_app(x):
+                for c in x.children():
+                    collect(c)
+                return
+            raise Outside("summand with a binder that depends on the summation index")
+        collect(val_t)
+        shape = z3.substitute(val_t, *params) if params else val_t
+        # canonical index name so that equal shapes have equal keys
+        cidx = z3.Int('S!i')
+        shape = z3.substitute(shape, (idx, cidx))
+        key = shape.sexpr() + '|' + ','.join(str(ph.sort()) for _p, ph in params)
+        phs = [ph for _p, ph in params]
         if key not in self.sum_cache:
-            self.sum_cache[key] = (z3.Function('psum!%d' % len(self.sum_cache), z3.IntSort(), z3.IntSort()), val_t)
-        ps, _ = self.sum_cache[key]
-        self.add_func_axiom(ps(0) == 0)
-        self.add_func_axiom(z3.ForAll([i], z3.Implies(i >= 0, ps(i + 1) == ps(i) + val_t), patterns=[ps(i + 1)]))
-        yield st, V(ps(nt), INT)
+            ps = z3.Function('psum!%d' % len(self.sum_cache), *([ph.sort() for ph in phs] + [z3.IntSort(), z3.IntSort()]))
+            self.sum_cache[key] = (ps, shape, phs)
+            zero = ps(*(phs + [z3.IntVal(0)])) == 0
+            step = z3.Implies(cidx >= 0, ps(*(phs + [cidx + 1])) == ps(*(phs + [cidx])) + shape)
+            if phs:
+                self.axioms.append(z3.ForAll(phs, zero, patterns=[ps(*(phs + [z3.IntVal(0)]))]))
+            else:
+                self.axioms.append(zero)
+            self.axioms.append(z3.ForAll(phs + [cidx], step, patterns=[ps(*(phs + [cidx + 1]))]))
+        ps, shape0, phs0 = self.sum_cache[key]
+        args = [p for p, _ph in params]
+        app = ps(*(args + [n]))
+        # ground unfoldings on the occurring term (so that instantiated / ground proofs need no quantifier)
+        if not self.has_free_bound(args + [n]):
+            self.add_func_axiom(ps(*(args + [z3.IntVal(0)])) == 0)
+            inst_shape = z3.substitute(shape0, *(list(zip(phs0, args)) + [(cidx, n - 1)]))
+            self.add_func_axiom(z3.Implies(n - 1 >= 0, app == ps(*(args + [n - 1])) + inst_shape))
+        return app
+
+    def has_free_bound(self, terms):
+        return False
 
     def _allany_symbolic(self, fname, comp, st, n, f):
         target, iter_e, ifs, elt = self.comp_parts(comp)
